@@ -239,6 +239,7 @@ func runC06(w *World) {
 			return
 		}
 		protID, plainID, selfID := prot.MyUserID(), plain.MyUserID(), kicker.MyUserID()
+		plainKicked := false
 		if b, err := os.ReadFile(filepath.Join(w.ConfigDir, "Banlist.yaml")); err == nil {
 			bansBefore = string(b)
 		}
@@ -287,13 +288,14 @@ func runC06(w *World) {
 				w.Probe("kick_unknown_id")
 				kicker.DisconnectUser(0x7777, op.N[1])
 				simrt.Sleep(3 * time.Second)
-				if prot.Closed || plain.Closed {
+				if prot.Closed || (plain.Closed && !plainKicked) {
 					w.Violate("c06-bystander-disconnected", "a disconnect request for an unknown id closed another user's connection")
 				}
 				return
 			case 1:
 				// unprotected target, no ban option (keeps the ban file comparable); C17 judges the effect
 				if !plain.Closed {
+					plainKicked = true
 					kicker.DisconnectUser(plainID, 0)
 					simrt.Sleep(3 * time.Second)
 				}
